@@ -212,6 +212,14 @@ impl AstLowering {
                             let ast::CallArg::Positional(value) = &args[0] else {
                                 unreachable!("checked by matches! above")
                             };
+                            // `struct_names` is filled in declaration order; a construction written before the
+                            // newtype declaration would otherwise carry an Unknown receiver type and the emitter
+                            // would skip the Incan argument conversions (`"lit"` stays `&str`).
+                            let struct_ty = if matches!(struct_ty, IrType::Unknown) {
+                                IrType::Struct(name.clone())
+                            } else {
+                                struct_ty
+                            };
                             let lowered_value = self.lower_expr(&value.node)?;
                             let ctor = self
                                 .newtype_checked_ctor
